@@ -210,8 +210,11 @@ pub fn verify(inp: &BcInput) -> Vec<Finding> {
                     Some(a) if *a != arity => out.push(f("function-pointer/arity", format!("FunctionPointer at {}: arity {arity}, the function declares {a}", ins.addr))),
                     _ => {}
                 }
-                if functions.keys().next() != Some(&h) && !labels.contains_key(&h) && functions.contains_key(&h) {
-                    // (the entry function has no label; calling it is not checked here)
+                if functions.contains_key(&h) && !labels.contains_key(&h) {
+                    // the entry function is the one function that is compiled without a label:
+                    // one defect, reached by every program that names `main` - keyed by the site
+                    let class = if h == inp.entry { "function-pointer/entry-function-has-no-label!" } else { "function-pointer/no-label" };
+                    out.push(f(class, format!("FunctionPointer at {} refers to a function of the source (handle {h}) that has no label: calling the value fails with ProcedureNotFound", ins.addr)));
                 }
             }
             "Closure" => {
